@@ -323,8 +323,23 @@ def vdw_colourings_bruteforce(N, K):
 
 
 def pythagorean_triples(N):
-    return [(a, b, c) for a in range(1, N + 1) for b in range(a + 1, N + 1)
-            for c in range(b + 1, N + 1) if a * a + b * b == c * c]
+    if N <= 60:
+        return [(a, b, c) for a in range(1, N + 1) for b in range(a + 1, N + 1)
+                for c in range(b + 1, N + 1) if a * a + b * b == c * c]
+    # larger N: the hypotenuse is looked up among the squares (quadratic)
+    sq = {c * c: c for c in range(1, N + 1)}
+    out = []
+    N2 = N * N
+    for a in range(1, N + 1):
+        a2 = a * a
+        for b in range(a + 1, N + 1):
+            s2 = a2 + b * b
+            if s2 > N2:
+                break
+            c = sq.get(s2)
+            if c is not None:
+                out.append((a, b, c))
+    return out
 
 
 def _omega(adj, cand):
@@ -1038,7 +1053,17 @@ def check_case(case, R=None):
             # equal clause sets have equal model sets (sufficient condition)
             stat('ptn_clause_sets_equal')
         elif n > BITMAP_LIMIT:
-            outcome('ptn:undecided(too large for a truth table)')
+            # beyond the truth table the documented axiom list is the oracle, as
+            # for the other families: one pair of clauses per Pythagorean triple
+            miss = refcl - produced
+            extra = produced - refcl
+            if miss:
+                bad('axioms:missing', '%d documented clause(s) are not in the formula, e.g. %r'
+                    % (len(miss), sorted(v for (v, _) in next(iter(miss)))))
+            if extra:
+                bad('axioms:extra', '%d clause(s) of the formula are no documented axiom, e.g. %r'
+                    % (len(extra), sorted(v for (v, _) in next(iter(extra)))))
+            outcome('ptn:axioms-compared')
             return out
         if n <= BITMAP_LIMIT:
             colsb = tt.columns(n)
@@ -1338,6 +1363,10 @@ def cases(tier, seed):
     for N in range(23, 201 if th else 61):
         add('ptn', [N], cost=2)
     add('ptn', [-1], expect='ValueError', cls='non-positive')
+    # hypotenuses of the almost isosceles triples (20,21,29), (119,120,169), (696,697,985),
+    # (4059,4060,5741): the legs are as close to N/sqrt(2) as they get
+    for N in (985, 986, 5741):
+        add('ptn', [N], cost=40 if N > 1000 else 3)
     return cs
 
 
